@@ -4,6 +4,7 @@ import (
 	"go/ast"
 	"go/token"
 	"go/types"
+	"sort"
 	"strings"
 
 	"gnetlint/core"
@@ -823,7 +824,7 @@ func runC07_13(c *core.Ctx) {
 func init() {
 	register(&core.Rule{ID: "C07.14", Prop: "C07", MinSites: 1,
 		Desc: "a half-built poller is torn down: in OpenPoller, once the epoll/kqueue descriptor exists, every return on the error edge of a later step (eventfd, registering the wake-up descriptor, kevent) first calls poller.Close() or closes the descriptor",
-		Run: runC07_14})
+		Run:  runC07_14})
 }
 
 func runC07_14(c *core.Ctx) {
@@ -907,4 +908,52 @@ func runC07_14(c *core.Ctx) {
 	if bad != token.NoPos {
 		_ = bad
 	}
+}
+
+func init() {
+	register(&core.Rule{ID: "C07.15", Prop: "C07", MinSites: 1,
+		Desc: "Poller.Close releases what OpenPoller acquired: the number of close(2) call sites in Poller.Close is at least the number of descriptors OpenPoller creates (epoll/kqueue descriptor, eventfd, both ends of a wake-up pipe)",
+		Run:  runC07_15})
+}
+
+func runC07_15(c *core.Ctx) {
+	open := getFn(c, "pkg/netpoll", "OpenPoller")
+	cl := getFn(c, "pkg/netpoll", "Poller.Close")
+	if open == nil || cl == nil {
+		return
+	}
+	acquired := 0
+	var what []string
+	seen := map[*types.Func]bool{}
+	var scan func(f *fn, depth int)
+	scan = func(f *fn, depth int) {
+		for _, call := range callsIn(f.Decl.Body, true) {
+			for name, n := range map[string]int{"EpollCreate1": 1, "EpollCreate": 1, "Eventfd": 1, "Kqueue": 1, "Pipe": 2, "Pipe2": 2} {
+				if flow.IsPkgFunc(f.Info, call, unixPkg, name) {
+					acquired += n
+					what = append(what, name)
+				}
+			}
+			if cf := flow.CalleeFunc(f.Info, call); cf != nil && cf.Pkg() != nil && strings.HasSuffix(cf.Pkg().Path(), "/pkg/netpoll") && !seen[cf] && depth < 2 {
+				seen[cf] = true
+				if g := fnOf(c, cf); g != nil && g.Decl.Body != nil {
+					scan(g, depth+1)
+				}
+			}
+		}
+	}
+	scan(open, 0)
+	closes := 0
+	for _, call := range callsIn(cl.Decl.Body, true) {
+		if flow.IsPkgFunc(cl.Info, call, unixPkg, "Close") {
+			closes++
+		}
+	}
+	if acquired == 0 {
+		c.Undecided(open.Name, "descriptors acquired", open.Decl.Pos(), "OpenPoller creates no descriptor through a known call: idiom not recognised")
+		return
+	}
+	sort.Strings(what)
+	c.Check(closes >= acquired, cl.Name, "closes every descriptor of the poller", cl.Decl.Pos(), itoa(closes)+" close sites for "+itoa(acquired)+" descriptors ("+strings.Join(what, ", ")+")",
+		"Poller.Close has "+itoa(closes)+" close(2) call site(s) but OpenPoller acquires "+itoa(acquired)+" descriptor(s) ("+strings.Join(what, ", ")+"): a descriptor of every poller stays open after the engine stopped")
 }
